@@ -285,13 +285,16 @@ def frame_obligations(fe, modname, clsname=None, functions=None):
     return out
 
 
-def store_census(fe, modname, allowed_program_writes, self_program_attrs=('program', 'types'), allowed_roots=()):
+def store_census(fe, modname, allowed_program_writes, self_program_attrs=('program', 'types'), allowed_roots=(),
+                 site_functions=None):
     """census[<function>]: every heap write of the module (attribute / subscript store, augmented assignment, deletion,
     in-place mutator call) either goes through `self` (bookkeeping of the visitor; but not through self.program / self.types)
     or through a local bound to a freshly created object / container (literal, comprehension, copy, deepcopy), or through one
     of `allowed_roots` (names of the analysis' own data structures, e.g. the type graph), or its attribute is in
     `allowed_program_writes` -- the attributes the property statement allows the mutation to change (each of those stores
-    carries a site obligation of the function's slice contract).  Syntactic, from the real AST."""
+    carries a site obligation of the function's slice contract: with `site_functions` given, such a store is accepted only
+    inside those functions -- moved into a helper without contract it has no obligation any more and fails here).
+    Syntactic, from the real AST."""
     m = fe.module(modname)
     fns = [('%s.%s' % (modname, n), f) for n, f in m.functions.items()]
     for cn, ci in m.classes.items():
@@ -352,9 +355,11 @@ def store_census(fe, modname, allowed_program_writes, self_program_attrs=('progr
                         continue        # (self.program = ... rebinds the reference, it does not write into the program)
                     if r in fresh or r in allowed_roots:
                         continue
-                    if attr in allowed_program_writes:
+                    if attr in allowed_program_writes and (site_functions is None or qual in site_functions):
                         continue
-                    bad.append('line %d: %s' % (n.lineno, ast.unparse(n)[:90]))
+                    bad.append('line %d: %s%s' % (n.lineno, ast.unparse(n)[:90],
+                                                  ' (no site obligation: this function is not under contract)'
+                                                  if attr in allowed_program_writes else ''))
         out.append(dict(name='%s/census[writes-only-what-the-statement-allows]' % qual, function=qual, lineno=fn.lineno,
                         kind='proof', status='proved' if not bad else 'failed', secs=0, backend='syntactic',
                         reason='; '.join(bad[:3])))
@@ -385,7 +390,7 @@ def ir_mutator_names(fe, modules=('src.ir.ast', 'src.ir.context', 'src.ir.types'
     return mut
 
 
-def mutator_call_census(fe, modname, allowed_calls, mutators):
+def mutator_call_census(fe, modname, allowed_calls, mutators, site_functions=None):
     """calls[<function>]: the module calls a mutating method of the IR (by name, transitive) only where the statement allows it"""
     m = fe.module(modname)
     fns = [('%s.%s' % (modname, n), f) for n, f in m.functions.items()]
@@ -396,11 +401,220 @@ def mutator_call_census(fe, modname, allowed_calls, mutators):
         bad = []
         for c in ast.walk(fn):
             if isinstance(c, ast.Call) and isinstance(c.func, ast.Attribute) and c.func.attr in mutators \
-                    and c.func.attr not in allowed_calls:
+                    and not (c.func.attr in allowed_calls and (site_functions is None or qual in site_functions)):
                 bad.append('line %d: %s' % (c.lineno, ast.unparse(c)[:90]))
         out.append(dict(name='%s/calls[no-ir-mutator-except-allowed]' % qual, function=qual, lineno=fn.lineno, kind='proof',
                         status='proved' if not bad else 'failed', secs=0, backend='syntactic', reason='; '.join(bad[:3])))
     return out
+
+
+def flag_frame_census(fe, modules, attrs, allowed_functions):
+    """frame[<module>]: the report flags of a transformation (`attrs`, e.g. is_transformed / error_injected) are stored only by
+    constructors and by the functions under contract `allowed_functions` (whose stores carry site obligations).  Every other
+    function of `modules` -- nested functions such as the timeout wrapper included -- leaves them alone, so the relation the
+    contract establishes between the flags and the writes into the program still holds when the caller reads the flags.
+    Syntactic, from the real AST: attribute stores, augmented assignments, deletions and setattr / delattr with a constant or
+    non-constant name (a non-constant name may be any attribute)."""
+    out = []
+    for modname in modules:
+        m = fe.module(modname)
+        bad = []
+
+        def walk(node, stack):
+            for ch in ast.iter_child_nodes(node):
+                if isinstance(ch, (ast.FunctionDef, ast.AsyncFunctionDef, ast.ClassDef)):
+                    walk(ch, stack + [ch.name])
+                    continue
+                check(ch, stack)
+                walk(ch, stack)
+
+        def check(n, stack):
+            qual = '.'.join([modname] + stack)
+            ok_here = (stack and stack[-1] == '__init__') or qual in allowed_functions
+            hits = []
+            targets = []
+            if isinstance(n, ast.Assign):
+                targets = n.targets
+            elif isinstance(n, (ast.AugAssign, ast.AnnAssign)):
+                targets = [n.target]
+            elif isinstance(n, ast.Delete):
+                targets = n.targets
+            for t in targets:
+                for tt in ast.walk(t):
+                    if isinstance(tt, ast.Attribute) and tt.attr in attrs and isinstance(tt.ctx, (ast.Store, ast.Del)):
+                        hits.append(tt.attr)
+            if isinstance(n, ast.Call) and isinstance(n.func, ast.Name) and n.func.id in ('setattr', 'delattr') and len(n.args) >= 2:
+                a = n.args[1]
+                if not isinstance(a, ast.Constant) or a.value in attrs:
+                    hits.append(a.value if isinstance(a, ast.Constant) else '<computed attribute name>')
+            if isinstance(n, ast.Call) and isinstance(n.func, ast.Attribute) and n.func.attr == 'update' \
+                    and isinstance(n.func.value, ast.Attribute) and n.func.value.attr == '__dict__':
+                hits.append('<__dict__.update>')
+            if hits and not ok_here:
+                bad.append('line %d in %s: %s' % (n.lineno, qual, ast.unparse(n)[:80]))
+
+        walk(m.tree, [])
+        out.append(dict(name='%s/frame[%s-stored-only-by-constructors-and-functions-under-contract]' % (modname, ','.join(sorted(attrs))),
+                        function=modname, lineno=1, kind='proof', status='proved' if not bad else 'failed', secs=0,
+                        backend='syntactic', reason='; '.join(bad[:3])))
+    return out
+
+
+def config_invariants(repo, invariants, sidecar_path, config_rel='src/generators/config.py', home_class='GenConfig'):
+    """config[<path>]: the global invariants the contracts assume about the generator configuration
+    (`invariants`: {'limits.cls.max_fields': ('>=', 1), ...}) hold at all times:
+      (a) the literal default of the field in GenConfig.__init__ (real AST of config.py) satisfies the bound;
+      (b) no statement of the project outside config.py stores an attribute of that name (attribute store, augmented
+          assignment, deletion, setattr / delattr with that or a computed name on anything, __dict__ writes), and nothing calls
+          json_config / process_arg (the only code of config.py that stores limits after construction);
+      (c) the sidecar states exactly these invariants (global_invariant clauses of its profile).
+    Syntactic; returns one obligation per invariant plus one for (c)."""
+    import os
+    out = []
+    cfg_tree = ast.parse(open(os.path.join(repo, config_rel)).read())
+    # literal defaults: GenConfig.__init__: self.limits = GenLimits(cls=ClassLimits(max_fields=2, ...), ...)
+    defaults = {}
+
+    def collect(prefix, call):
+        for kw in call.keywords:
+            if kw.arg is None:
+                continue
+            path = prefix + [kw.arg]
+            if isinstance(kw.value, ast.Call):
+                collect(path, kw.value)
+            elif isinstance(kw.value, ast.Constant):
+                defaults['.'.join(path)] = kw.value.value
+            elif isinstance(kw.value, ast.UnaryOp) and isinstance(kw.value.op, ast.USub) and isinstance(kw.value.operand, ast.Constant):
+                defaults['.'.join(path)] = -kw.value.operand.value
+    for cls_ in [n for n in cfg_tree.body if isinstance(n, ast.ClassDef) and n.name == home_class]:
+        for fn in [n for n in cls_.body if isinstance(n, ast.FunctionDef) and n.name == '__init__']:
+            for st in fn.body:
+                if isinstance(st, ast.Assign) and len(st.targets) == 1 and isinstance(st.targets[0], ast.Attribute) \
+                        and isinstance(st.targets[0].value, ast.Name) and st.targets[0].value.id == 'self' \
+                        and isinstance(st.value, ast.Call):
+                    collect([st.targets[0].attr], st.value)
+    # stores anywhere else
+    names = {p.split('.')[-1] for p in invariants}
+    stores = {n: [] for n in names}
+    general = []
+    files = []
+    for root, dirs, fs in os.walk(os.path.join(repo, 'src')):
+        dirs[:] = [d for d in dirs if d != '__pycache__']
+        files += [os.path.join(root, f) for f in fs if f.endswith('.py')]
+    files.append(os.path.join(repo, 'hephaestus.py'))
+    for f in sorted(files):
+        rel = os.path.relpath(f, repo)
+        if rel == config_rel:
+            continue
+        try:
+            tree = ast.parse(open(f).read())
+        except (OSError, SyntaxError):
+            continue
+        for n in ast.walk(tree):
+            targets = []
+            if isinstance(n, ast.Assign):
+                targets = n.targets
+            elif isinstance(n, (ast.AugAssign, ast.AnnAssign)):
+                targets = [n.target]
+            elif isinstance(n, ast.Delete):
+                targets = n.targets
+            for t in targets:
+                for tt in ast.walk(t):
+                    if isinstance(tt, ast.Attribute) and isinstance(tt.ctx, (ast.Store, ast.Del)) and tt.attr in names:
+                        stores[tt.attr].append('%s:%d: %s' % (rel, n.lineno, ast.unparse(n)[:70]))
+            if isinstance(n, ast.Call):
+                fn_ = n.func
+                nm = fn_.id if isinstance(fn_, ast.Name) else (fn_.attr if isinstance(fn_, ast.Attribute) else None)
+                if nm in ('setattr', 'delattr') and len(n.args) >= 2:
+                    a = n.args[1]
+                    if isinstance(a, ast.Constant):
+                        if a.value in names:
+                            stores[a.value].append('%s:%d: %s' % (rel, n.lineno, ast.unparse(n)[:70]))
+                    else:
+                        # a computed attribute name: harmless unless the object may be (part of) the configuration
+                        txt = ast.unparse(n.args[0])
+                        if 'cfg' in txt or 'config' in txt.lower() or 'limits' in txt:
+                            general.append('%s:%d: %s' % (rel, n.lineno, ast.unparse(n)[:70]))
+                if nm in ('json_config', 'process_arg'):
+                    general.append('%s:%d: %s' % (rel, n.lineno, ast.unparse(n)[:70]))
+    ops = {'>=': lambda a, b: a >= b, '<=': lambda a, b: a <= b, '==': lambda a, b: a == b}
+    for path, (op, bound) in sorted(invariants.items()):
+        why = []
+        if path not in defaults:
+            why.append('no literal default for %s in %s' % (path, config_rel))
+        elif not isinstance(defaults[path], (int, float)) or not ops[op](defaults[path], bound):
+            why.append('default %r of %s violates %s %r' % (defaults[path], path, op, bound))
+        why += stores[path.split('.')[-1]][:3]
+        why += general[:2]
+        out.append(dict(name='src.generators.config/config[cfg.%s %s %r at all times]' % (path, op, bound),
+                        function='src.generators.config', lineno=1, kind='proof', status='proved' if not why else 'failed',
+                        secs=0, backend='syntactic', reason='; '.join(why)))
+    # (c) the sidecar assumes exactly these
+    side = ast.parse(open(sidecar_path).read())
+    stated = set()
+    for n in ast.walk(side):
+        if isinstance(n, ast.Call) and isinstance(n.func, ast.Name) and n.func.id == 'global_invariant' and len(n.args) == 2:
+            stated.add(ast.unparse(n.args[1]))
+    expect = {'cfg.%s %s %r' % (p_, op, b) for p_, (op, b) in invariants.items()}
+    out.append(dict(name='src.generators.config/config[the sidecar assumes exactly the checked invariants]',
+                    function='src.generators.config', lineno=1, kind='proof', status='proved' if stated == expect else 'failed',
+                    secs=0, backend='syntactic', reason='' if stated == expect else 'sidecar: %s; checked: %s' % (
+                        sorted(stated - expect), sorted(expect - stated))))
+    return out
+
+
+def result_through_sites(fe, qual, acc, result_index=0, allowed_callees=()):
+    """result[<function>]: the site obligations at `acc.append(...)` speak about the function's RESULT only if the result is
+    that accumulator: every `return` of the function (nested functions excluded) returns `acc` (as element `result_index` of a
+    tuple, or alone), `acc` is bound exactly once, to an empty list, and is changed in place only by `.append` (the site) or
+    by being passed to one of `allowed_callees` (helpers listed as not under contract).  An early `return [..comprehension..]`
+    or a second binding of the accumulator bypasses every site obligation and fails here.  Syntactic, from the real AST."""
+    modname, fname = qual.rsplit('.', 1)
+    fn = fe.module(modname).functions[fname]
+    bad = []
+
+    def own_nodes(node):
+        for ch in ast.iter_child_nodes(node):
+            if isinstance(ch, (ast.FunctionDef, ast.AsyncFunctionDef, ast.Lambda, ast.ClassDef)):
+                continue
+            yield ch
+            yield from own_nodes(ch)
+    binds = 0
+    for n in own_nodes(fn):
+        if isinstance(n, ast.Return):
+            v = n.value
+            el = v.elts[result_index] if isinstance(v, ast.Tuple) and len(v.elts) > result_index else v
+            if not (isinstance(el, ast.Name) and el.id == acc):
+                bad.append('line %d: returns %s, not the accumulator %s' % (n.lineno, ast.unparse(v)[:60] if v else 'None', acc))
+        targets = []
+        if isinstance(n, ast.Assign):
+            targets = n.targets
+        elif isinstance(n, (ast.AugAssign, ast.AnnAssign)):
+            targets = [n.target]
+        elif isinstance(n, ast.Delete):
+            targets = n.targets
+        elif isinstance(n, (ast.For, ast.comprehension)):
+            targets = [n.target]
+        for t in targets:
+            for e in ast.walk(t):
+                if isinstance(e, ast.Name) and e.id == acc:
+                    if isinstance(n, ast.Assign) and t is e and isinstance(n.value, ast.List) and not n.value.elts:
+                        binds += 1
+                    else:
+                        bad.append('line %d: %s is rebound / written other than by append: %s' % (n.lineno, acc, ast.unparse(n)[:60]))
+        if isinstance(n, ast.Call):
+            f = n.func
+            if isinstance(f, ast.Attribute) and isinstance(f.value, ast.Name) and f.value.id == acc and f.attr != 'append' \
+                    and f.attr in MUTATORS:
+                bad.append('line %d: %s.%s(...)' % (n.lineno, acc, f.attr))
+            callee = f.id if isinstance(f, ast.Name) else (f.attr if isinstance(f, ast.Attribute) else '')
+            passed = any(isinstance(a, ast.Name) and a.id == acc for a in list(n.args) + [k.value for k in n.keywords])
+            if passed and callee not in allowed_callees and callee not in ('len', 'list', 'tuple', 'enumerate', 'zip', 'str'):
+                bad.append('line %d: %s is passed to %s(...)' % (n.lineno, acc, callee))
+    if binds != 1:
+        bad.append('%s is bound to an empty list %d times (expected once)' % (acc, binds))
+    return [dict(name='%s/result[is-the-accumulator-filled-at-the-sites]' % qual, function=qual, lineno=fn.lineno, kind='proof',
+                 status='proved' if not bad else 'failed', secs=0, backend='syntactic', reason='; '.join(bad[:3]))]
 
 
 MUTABLE_CTORS = {'dict', 'list', 'set', 'defaultdict', 'OrderedDict', 'deque', 'Counter'}
@@ -438,7 +652,14 @@ def hidden_state_census(fe, modname, allowed_globals=()):
     (a) no parameter with a mutable default value ({} / [] / set() ...) is written through in the function body (the default
         object is shared by all calls);
     (b) no module-level mutable container is written from inside a function (memo tables, registries), except the names in
-        `allowed_globals`.
+        `allowed_globals`;
+    (c) no function or method is wrapped in a memoising decorator (functools.lru_cache / cache / cached_property or anything
+        whose name contains "cache" / "memo"): the cache is keyed by `==` / `hash` of the arguments, which identify less than
+        the result depends on (mutable declarations, the primitive flag of a builtin, the random generator).
+    (d) in the modules of the type representation (VALUE_OBJECT_MODULES: types are values, every query on them must be a
+        function of the object graph as it is now) no method other than __init__ / __setstate__ / a property setter stores
+        into or mutates in place anything reached through `self` (a per-instance memo of a query result goes stale when a
+        bound / supertype list is re-assigned later -- which TypeUpdater, the generator and the mutations do).
     Syntactic, from the real AST."""
     m = fe.module(modname)
     tree = m.tree if hasattr(m, 'tree') else None
@@ -455,6 +676,11 @@ def hidden_state_census(fe, modname, allowed_globals=()):
                     globs.add(t.id)
     funcs = [n for n in ast.walk(tree) if isinstance(n, (ast.FunctionDef, ast.AsyncFunctionDef))]
     for fn in funcs:
+        for dec in fn.decorator_list:
+            dn = dec.func if isinstance(dec, ast.Call) else dec
+            nm = dn.attr if isinstance(dn, ast.Attribute) else (dn.id if isinstance(dn, ast.Name) else '')
+            if 'cache' in nm.lower() or 'memo' in nm.lower():
+                bad.append('line %d: %s() is memoised by @%s' % (fn.lineno, fn.name, ast.unparse(dec)[:50]))
         a = fn.args
         pos = a.posonlyargs + a.args
         for arg, d in list(zip(pos[len(pos) - len(a.defaults):], a.defaults)) + [
@@ -472,8 +698,38 @@ def hidden_state_census(fe, modname, allowed_globals=()):
             ln = _writes_through(fn, g)
             if ln:
                 bad.append('line %d: %s() writes the module-level container %s' % (ln, fn.name, g))
+    if modname in VALUE_OBJECT_MODULES:
+        for cls_ in [n for n in tree.body if isinstance(n, ast.ClassDef)]:
+            for fn in [n for n in cls_.body if isinstance(n, ast.FunctionDef)]:
+                if fn.name in ('__init__', '__setstate__') or any(
+                        isinstance(d, ast.Attribute) and d.attr == 'setter' for d in fn.decorator_list):
+                    continue
+                for n in ast.walk(fn):
+                    targets = []
+                    if isinstance(n, ast.Assign):
+                        targets = n.targets
+                    elif isinstance(n, (ast.AugAssign, ast.AnnAssign)):
+                        targets = [n.target]
+                    elif isinstance(n, ast.Delete):
+                        targets = n.targets
+                    elif isinstance(n, ast.Call) and isinstance(n.func, ast.Attribute) and n.func.attr in MUTATORS:
+                        targets = [n.func.value]
+                    elif isinstance(n, ast.Call) and isinstance(n.func, ast.Name) and n.func.id in ('setattr', 'delattr') \
+                            and n.args:
+                        targets = [ast.Attribute(value=n.args[0], attr='<setattr>', ctx=ast.Store())]
+                    for t in targets:
+                        for tt in (t.elts if isinstance(t, (ast.Tuple, ast.List)) else [t]):
+                            if isinstance(tt, ast.Name):
+                                continue
+                            if root_name(tt) == 'self':
+                                bad.append('line %d: %s.%s() stores through self: %s' % (
+                                    n.lineno, cls_.name, fn.name, ast.unparse(n)[:60]))
     return [dict(name='%s/hidden-state[no-shared-mutable-state]' % modname, function=modname, lineno=0, kind='proof',
                  status='proved' if not bad else 'failed', secs=0, backend='syntactic', reason='; '.join(bad[:3]))]
+
+
+VALUE_OBJECT_MODULES = {'src.ir.types', 'src.ir.builtins', 'src.ir.kotlin_types', 'src.ir.java_types', 'src.ir.groovy_types',
+                        'src.ir.scala_types'}
 
 
 SWITCH_WIRING = [
